@@ -329,7 +329,7 @@ def run(run: C.Run):
     run.trusted += ["T4 callee classification (FRESH_CALLS / VIEW_CALLS / COPY_POINTS / ALLOWED_STORES of gen_effects.py; the last two are emitted into Gen/Effects.v with their justifications)"]
     run.assumptions += ["the Python->IR translation is flow-insensitive and field-insensitive; serialisation (cloudpickle) and real data races are runtime facts observed by K5 only"]
     run.cov["rule"] = (
-        "T4 regenerates the alias/effect IR + points-to certificate of the 35 functions reachable from task callables and Coq re-checks it "
+        "T4 regenerates the alias/effect IR + points-to certificate of the functions reachable from task callables (44 with the tuple-return projections) and Coq re-checks it "
         "(no task callable may write into an object that may be one of its parameters); K5: every task of the graphs of random reductions "
         "(numpy / dask labels, RangeIndex expected groups with out-of-range labels, 4 methods, 4 engines) and scans is executed by hand "
         "with read-only inputs, twice, and after a cloudpickle round trip, comparing values and input snapshots; threaded runs of "
